@@ -14,7 +14,7 @@ SMALL_BLOCKS = 4      # runner: every 4th case keeps its stores in 2..10-token b
 GATES = {
     'quick': {'full_sweep_models': 20000, 'cases_in_small_blocks': 50, 'evaluations': 15000, 'claim_calls': 4000, 'claim_calls_moving_zero_width': 30, 'claim_calls_raising': 300,
               'attribute_reads': 90000, 'wrapper_reads': 15000, 'deepcopies': 1000, 'comparisons': 1000, 'auto_claim_calls': 800,
-              'pingpong_sequences': 1500},
+              'pingpong_sequences': 1500, 'underfull_block_holds_a_comment': 200},
     'thorough': {'evaluations': 400000, 'claim_calls_moving_zero_width': 800},
 }
 RULE = ('case = one accepted generated comment-dense document (either attribution mode, half of them in 2..5-token blocks so that claim '
@@ -103,7 +103,7 @@ def sweep(col, m):
 
 
 def run_case(col, r, idx):
-    lf = r.choice([2, 3, 5]) if idx % 2 == 0 else 1000
+    lf = r.choice([2, 3, 5, 8, 12, 20, 30]) if idx % 2 == 0 else 1000     # (re-splices that stay inside one block need blocks of some size)
     storemodel.set_load_factor(lf)
     try:
         acl = idx % 2 == 1
@@ -116,6 +116,24 @@ def run_case(col, r, idx):
         if f is None:
             col.skip('document rejected by parse')
             return
+        underfull = False
+        if idx % 4 == 2:
+            # a block size under which the store starts out with an under-full block between a full one and a smaller one (what
+            # from_tokens builds when the last run is between 1 and 1.5 blocks long): the first re-splice inside that block makes the
+            # store rebalance it
+            n = len(f.token_store)
+            cands = [k for k in range(6, 61) if n // k >= 2 and 0 < n % k <= k // 2]
+            if cands:
+                # ... preferably one whose under-full block holds a comment (the calls below re-splice around comments)
+                cpos = [i for i, t in enumerate(f.token_store) if isinstance(t, models.BlockComment)]
+                good = [k for k in cands if any((n // k - 1) * k <= i < (n // k - 1) * k + k // 2 for i in cpos)]
+                if good:
+                    col.count('underfull_block_holds_a_comment')
+                lf = r.choice(good or cands)
+                underfull = True
+                storemodel.set_load_factor(lf)
+                f = P.parse(text, models.File, auto_claim_comments=acl)
+                col.count('stores_starting_with_an_underfull_block')
         foreign = None
         store = f.token_store
         v0 = walker.visible(store)
@@ -125,7 +143,7 @@ def run_case(col, r, idx):
         log = []
         ncalls = r.randint(5, 20) if col.tier == 'quick' else r.randint(5, 40)
         pending = []
-        if not acl and idx % 3 == 0:
+        if not acl and (idx % 3 == 0 or underfull):
             # with attribution off, claim everything by hand in a random order (meta lists before postings lists, meta items before
             # their neighbours ...): these are the orders in which placeholders sit between a model and the comment it claims
             from autobean_refactor.models.internal.surrounding_comments import SurroundingCommentsMixin
@@ -139,9 +157,9 @@ def run_case(col, r, idx):
                             pending.append(ops.Op('claim:claim_i', f'{p}.{a}.claim_interleaving_comments()', f, '$', lambda: [],
                                                   getattr(m, a).claim_interleaving_comments))
             r.shuffle(pending)
-            pending = pending[:30]
+            pending = pending[:60 if underfull else 30]
             ncalls += len(pending)
-        if idx % 3 != 0:
+        if idx % 3 != 0 and not (underfull and pending):
             # hand one comment back and forth between its possible owners (claim, unclaim, claim by the neighbour, ...)
             pending = ops.pingpong_ops(f, r, r.randint(6, 14)) + pending
             pending.reverse()
